@@ -240,7 +240,11 @@ pub fn build(spec: &BlindSpec) -> Flow {
     // with an empty value under subtype 0 looks like a scalar but for its prefix): they must travel along untouched
     if p.chance(1, 4) {
         for _ in 0..p.urange(1, 3) {
-            let k = crate::psetgen::foreign_prop_key(&mut p, 0x02);
+            let mut k = crate::psetgen::foreign_prop_key(&mut p, 0x02);
+            if p.coin() {
+                // exactly the shape of a scalar entry, under a foreign prefix
+                k = elements::pset::raw::ProprietaryKey { prefix: b"qset".to_vec(), subtype: 0, key: p.bytes(32) };
+            }
             let n = if k.prefix != b"pset" { *p.pick(&[0usize, 0, 1, 32]) } else { p.usize_below(8) };
             ps.global.proprietary.insert(k, p.bytes(n));
         }
